@@ -76,6 +76,11 @@ class AlgTrans(Transformation):
                 f"Error in {self.name} transformation. The supplied node "
                 f"should be the root of a PSyIR tree but this node has a "
                 f"parent.")
+        # Validate every invoke call before any of them is transformed so
+        # that a refusal leaves the whole tree untouched.
+        for call in node.walk(Call):
+            if call.routine.name.lower() == "invoke":
+                self._invoke_trans.validate(call, options=options)
 
     def apply(self, psyir, options=None):
         ''' Apply transformation to the supplied PSyIR node.
